@@ -829,6 +829,19 @@ def stage_reuse(ctx, rec, exprs, metas):
                         do_fit(S, noparam, datas[i], rec)
                         code = 0
                     else:
+                        if j % 2 == 1:
+                            # a bystander: another strategy object of the same class with other settings is created (and
+                            # used once) between two fits of S - S's own settings and results must not notice
+                            from holopy.inference import NmpfitStrategy, LeastSquaresScipyStrategy
+                            other = (NmpfitStrategy(npixels=npixels, seed=seed, maxiter=2, ftol=1e-2, xtol=1e-2, gtol=1e-2)
+                                     if skind == "nmpfit" else
+                                     LeastSquaresScipyStrategy(npixels=npixels, max_nfev=3, ftol=1e-2, xtol=1e-2, gtol=1e-2))
+                            if j % 4 == 1:
+                                try:
+                                    do_fit(other, models[i], datas[i], rec)
+                                except Exception:  # noqa - only its side effects on S matter here
+                                    pass
+                            ctx.count("reuse:bystander-strategy")
                         rec.raise_next = (ek == "raise")
                         res = do_fit(S, models[i], datas[i], rec)
                         code = 0
